@@ -43,7 +43,8 @@ func (b *Bar) SortEvents() {
 }
 
 func (b Bar) Len() uint8 {
-	return b.TimeSig[0] * 32 / b.TimeSig[1]
+	// compute in 16 bits: numerator*32 does not fit into uint8 for numerators of 8 and more
+	return uint8(uint16(b.TimeSig[0]) * 32 / uint16(b.TimeSig[1]))
 }
 
 func (b *Bar) barPos(absTicks int64, ticks smf.MetricTicks) uint8 {
